@@ -402,18 +402,22 @@ package classifier
 //@
 // ---------------------------------------------------------------- classifier.go: names
 //
+//@ // C03: the three parts of a reported name are the first three segments of
+//@ // the key under which the document was added to the corpus
 //@ func detectionType
-//@   ensures true
+//@   ensures result == splitSeg(in, runeStr(47), 0)
 //@   modifies nothing
 //@   props C10 C03
 //@
 //@ func variantName
 //@   requires nsep(in, runeStr(47)) >= 2
+//@   ensures result == splitSeg(in, runeStr(47), 2)
 //@   modifies nothing
 //@   props C10 C03
 //@
 //@ func LicenseName
 //@   requires nsep(in, runeStr(47)) >= 1
+//@   ensures result == splitSeg(in, runeStr(47), 1)
 //@   modifies nothing
 //@   props C10 C03
 //@
@@ -494,6 +498,11 @@ package classifier
 //@ // never when the buffer is refilled: no byte is skipped or decoded twice
 //@ // across buffer boundaries, however the reader fragments its data.
 //@ ghostvar spos int
+//@ // C03: nlSeen counts the newline characters decoded so far; the line counter
+//@ // never runs ahead of it, so no reported line exceeds the number of lines of
+//@ // the input (1 + number of newline characters).
+//@ ghostvar nlSeen int
+//@ spec linesBounded(d *indexedDocument, n int) bool = (forall i int :: 0 <= i && i < len(d.Tokens) ==> d.Tokens[i].Line <= n) && (forall i int :: 0 <= i && i < len(d.Matches) ==> d.Matches[i].EndLine <= n)
 //@ func tokenizeStream
 //@   ghostset spos = streamPos[src] atentry
 //@   uses SUBSLICE-REV
@@ -504,6 +513,9 @@ package classifier
 //@   ensures readFailed(lastReadErr) ==> result1 == lastReadErr
 //@   ensures result1 == nil ==> fresh(result0) && wfDoc(result0) && result0.dict == dict && result0.s == nil && fresh(result0.f) && (result0.runes == nil || fresh(result0.runes))
 //@   ensures dict.words == old(dict.words) && dict.indices == old(dict.indices)
+//@   ensures [lines-inside-input] nlSeen >= 0 && (result1 == nil ==> linesBounded(result0, 1 + nlSeen))
+//@   ghostset nlSeen = 0 atentry
+//@   ghostset nlSeen = nlSeen + ite(result0 == 10, 1, 0) after DecodeRune
 //@   modifies entries(dict.words) when updateDict || !normalize
 //@   modifies entries(dict.indices) when updateDict || !normalize
 //@   ghostset spos = spos + value - oldvalue onstore idx in loop 2
@@ -511,10 +523,12 @@ package classifier
 //@   loop 2 invariant streamPos[src] == spos - idx + ite(err == nil, 1024, tgt) && (forall j int :: 0 <= j && j < ite(err == nil, 1024, tgt) ==> rbuf[j] == streamByte(src, spos - idx + j))
 //@   loop 1 invariant tgt == 1020 && 0 <= idx && idx <= 4 && line >= 1 && wfDict(ld) && fresh(ld) && fresh(ld.words) && fresh(ld.indices)
 //@   loop 1 invariant sortedLines(&doc) && boundedLines(&doc, line)
+//@   loop 1 invariant nlSeen >= 0 && line + ite(deferredEOL || deferredWord, 1, 0) <= 1 + nlSeen && (forall i int :: 0 <= i && i < len(doc.Matches) ==> doc.Matches[i].EndLine <= line)
 //@   loop 1 invariant okLines(&doc) && okPseudo(doc.Matches) && (doc.Tokens == nil || fresh(doc.Tokens)) && (doc.Matches == nil || fresh(doc.Matches))
 //@   loop 1 invariant (obuf == nil || fresh(obuf)) && (linebuf == nil || fresh(linebuf)) && fresh(rbuf) && len(rbuf) == 1024 && off(rbuf) == 0 && ref(obuf) != ref(rbuf)
 //@   loop 2 invariant 0 <= idx && idx <= 1024 && 0 <= tgt && tgt <= 1024 && line >= 1 && wfDict(ld) && fresh(ld) && fresh(ld.words) && fresh(ld.indices)
 //@   loop 2 invariant sortedLines(&doc) && boundedLines(&doc, line)
+//@   loop 2 invariant nlSeen >= 0 && line + ite(deferredEOL || deferredWord, 1, 0) <= 1 + nlSeen && (forall i int :: 0 <= i && i < len(doc.Matches) ==> doc.Matches[i].EndLine <= line)
 //@   loop 2 invariant okLines(&doc) && okPseudo(doc.Matches) && (doc.Tokens == nil || fresh(doc.Tokens)) && (doc.Matches == nil || fresh(doc.Matches))
 //@   loop 2 invariant (obuf == nil || fresh(obuf)) && (linebuf == nil || fresh(linebuf)) && fresh(rbuf) && len(rbuf) == 1024 && off(rbuf) == 0 && ref(obuf) != ref(rbuf)
 //@   loop 3 invariant (obuf == nil || fresh(obuf)) && fresh(rbuf) && len(rbuf) == 1024 && off(rbuf) == 0 && ref(obuf) != ref(rbuf)
@@ -547,6 +561,9 @@ package classifier
 //@
 //@ spec pseudoShape(m *Match) bool = m.Name == "Copyright" && m.MatchType == "Copyright" && m.Confidence == 1.0 && m.StartLine == m.EndLine && m.StartLine >= 1
 //@ spec okCand(m *Match, id *indexedDocument, thr float64) bool = m != nil && (pseudoShape(m) || (thr <= m.Confidence && m.Confidence <= 1.0 && 0 <= m.StartTokenIndex && m.StartTokenIndex <= m.EndTokenIndex && m.EndTokenIndex < len(id.Tokens) && m.StartLine == id.Tokens[m.StartTokenIndex].Line && m.EndLine == id.Tokens[m.EndTokenIndex].Line))
+//@ spec fromKey(m *Match, l string) bool = m.MatchType == splitSeg(l, runeStr(47), 0) && m.Name == splitSeg(l, runeStr(47), 1) && m.Variant == splitSeg(l, runeStr(47), 2)
+//@ spec fromCorpus(m *Match, c *Classifier) bool = pseudoShape(m) || (exists l string :: (l in c.docs) && fromKey(m, l))
+//@ spec allFromCorpus(ms Matches, c *Classifier) bool = forall k int :: 0 <= k && k < len(ms) ==> fromCorpus(ms[k], c)
 //@ spec okCands(ms Matches, id *indexedDocument, thr float64) bool = forall k int :: 0 <= k && k < len(ms) ==> okCand(ms[k], id, thr)
 //@ spec okRes(m *Match, thr float64, total int) bool = m != nil && (pseudoShape(m) || (thr <= m.Confidence && m.Confidence <= 1.0 && 0 <= m.StartTokenIndex && m.StartTokenIndex <= m.EndTokenIndex && 1 <= m.StartLine && m.StartLine <= m.EndLine && m.EndLine <= total))
 //@ spec mlessV(a Match, b Match) bool = ite(a.Confidence != b.Confidence, a.Confidence > b.Confidence, ite(a.StartTokenIndex != b.StartTokenIndex, a.StartTokenIndex < b.StartTokenIndex, ite(a.EndTokenIndex != b.EndTokenIndex, a.EndTokenIndex > b.EndTokenIndex, ite(a.Name != b.Name, a.Name < b.Name, ite(a.MatchType != b.MatchType, a.MatchType < b.MatchType, a.Variant < b.Variant)))))
@@ -602,6 +619,8 @@ package classifier
 //@   ensures readFailed(lastReadErr) ==> result1 == lastReadErr
 //@   ensures forall i int :: 0 <= i && i < len(result0.Matches) ==> okRes(result0.Matches[i], c.threshold, result0.TotalInputLines)
 //@   ensures sortedConf(result0.Matches)
+//@   ensures [names-from-corpus] allFromCorpus(result0.Matches, c)
+//@   ensures [lines-inside-input] result0.TotalInputLines <= 1 + nlSeen && (forall i int :: 0 <= i && i < len(result0.Matches) ==> result0.Matches[i].EndLine <= 1 + nlSeen)
 //@   modifies nothing
 //@   ghostset lastScore = result0 after score
 //@   ghostset pseudoMs = result0.Matches after tokenizeStream
@@ -642,19 +661,41 @@ package classifier
 //@   loop 2 invariant same(pseudoMs, id.Matches) && len(pseudoMs) <= len(candidates) && (forall k int :: 0 <= k && k < len(pseudoMs) ==> candidates[k] == pseudoMs[k])
 //@   loop 3 invariant same(pseudoMs, id.Matches) && len(pseudoMs) <= len(candidates) && (forall k int :: 0 <= k && k < len(pseudoMs) ==> candidates[k] == pseudoMs[k])
 //@   loop 4 invariant forall k int :: 0 <= k && k < len(pseudoMs) ==> (exists j int :: 0 <= j && j < len(candidates) && candidates[j] == pseudoMs[k])
+//@   loop 2 invariant allFromCorpus(candidates, c)
+//@   loop 3 invariant allFromCorpus(candidates, c)
+//@   loop 4 invariant allFromCorpus(candidates, old(c))
+//@   loop 5 invariant allFromCorpus(candidates, old(c))
+//@   loop 6 invariant allFromCorpus(candidates, old(c))
+//@   loop 7 invariant allFromCorpus(candidates, old(c))
+//@   loop 7 invariant allFromCorpus(out, old(c))
+//@   loop 2 invariant linesBounded(id, 1 + nlSeen) && (forall k int :: 0 <= k && k < len(candidates) ==> candidates[k].EndLine <= 1 + nlSeen)
+//@   loop 3 invariant linesBounded(id, 1 + nlSeen) && (forall k int :: 0 <= k && k < len(candidates) ==> candidates[k].EndLine <= 1 + nlSeen)
+//@   loop 4 invariant linesBounded(id, 1 + nlSeen) && (forall k int :: 0 <= k && k < len(candidates) ==> candidates[k].EndLine <= 1 + nlSeen)
+//@   loop 5 invariant linesBounded(id, 1 + nlSeen) && (forall k int :: 0 <= k && k < len(candidates) ==> candidates[k].EndLine <= 1 + nlSeen)
+//@   loop 6 invariant linesBounded(id, 1 + nlSeen) && (forall k int :: 0 <= k && k < len(candidates) ==> candidates[k].EndLine <= 1 + nlSeen)
+//@   loop 7 invariant linesBounded(id, 1 + nlSeen) && (forall k int :: 0 <= k && k < len(candidates) ==> candidates[k].EndLine <= 1 + nlSeen)
+//@   loop 7 invariant forall k int :: 0 <= k && k < len(out) ==> out[k].EndLine <= 1 + nlSeen
 //@   props C10 C03 C08 C09 C04 C02 C06 C01
 //@
+//@ // C03 at the public API: what match() establishes is what callers of
+//@ // Match/MatchFrom get.
 //@ func (*Classifier).MatchFrom
 //@   requires wfClassifier(c) && 0.0 <= c.threshold && c.threshold <= 1.0
 //@   ensures result1 != nil ==> len(result0.Matches) == 0
 //@   ensures readFailed(lastReadErr) ==> result1 == lastReadErr
+//@   ensures forall i int :: 0 <= i && i < len(result0.Matches) ==> okRes(result0.Matches[i], c.threshold, result0.TotalInputLines)
+//@   ensures sortedConf(result0.Matches) && allFromCorpus(result0.Matches, c)
+//@   ensures result0.TotalInputLines <= 1 + nlSeen && (forall i int :: 0 <= i && i < len(result0.Matches) ==> result0.Matches[i].EndLine <= 1 + nlSeen)
 //@   modifies nothing
-//@   props C10 C08 C09 C04
+//@   props C10 C08 C09 C04 C03
 //@
 //@ func (*Classifier).Match
 //@   requires wfClassifier(c) && 0.0 <= c.threshold && c.threshold <= 1.0
+//@   ensures forall i int :: 0 <= i && i < len(result.Matches) ==> okRes(result.Matches[i], c.threshold, result.TotalInputLines)
+//@   ensures sortedConf(result.Matches) && allFromCorpus(result.Matches, c)
+//@   ensures result.TotalInputLines <= 1 + nlSeen && (forall i int :: 0 <= i && i < len(result.Matches) ==> result.Matches[i].EndLine <= 1 + nlSeen)
 //@   modifies nothing
-//@   props C10 C09 C04
+//@   props C10 C09 C04 C03
 //
 //@ func (*indexedDocument).normalized
 //@   requires d != nil && d.dict != nil
